@@ -698,6 +698,71 @@ def gen_scaled_data(repo, scaling):
     return m
 
 
+def gen_conversion(repo, timedelta):
+    """T24: nitypes.time.convert_timedelta: the destination table, the three single-dispatch functions and what each registered
+    overload does, as routes over the conversion legs of Model/Conv.lean (whose bintime kernels are themselves generated)"""
+    ast = T.ast
+    m = T.Module(f"{repo}/src/nitypes/time/_conversion.py", "Gen.Conversion", imports=[timedelta])
+    m.extra_imports = ["NiVerif.Model.Conv"]
+    FAM = {"bt.TimeDelta": "bt", "dt.timedelta": "dt", "ht.timedelta": "ht"}
+    table = None
+    for n in m.tree.body:
+        tgt = n.target if isinstance(n, ast.AnnAssign) else (n.targets[0] if isinstance(n, ast.Assign) else None)
+        if isinstance(tgt, ast.Name) and tgt.id == "_CONVERT_TIMEDELTA_FOR_TYPE" and isinstance(n.value, ast.Dict):
+            table = {ast.unparse(k): ast.unparse(v) for k, v in zip(n.value.keys, n.value.values)}
+    if table is None or set(table) != set(FAM):
+        raise T.Untranslatable(f"_CONVERT_TIMEDELTA_FOR_TYPE: {table}", where=m.path)
+    top = m.find_func(None, "convert_timedelta")
+    tb = [ast.unparse(st) for st in top.body if not (isinstance(st, ast.Expr) and isinstance(st.value, ast.Constant))]
+    if tb != ["convert_func = _CONVERT_TIMEDELTA_FOR_TYPE.get(requested_type)", "if convert_func is None:\n    raise invalid_requested_type('timedelta', requested_type)",
+              "return cast(TTimeDelta, convert_func(value))"]:
+        raise T.Untranslatable("convert_timedelta is not the expected statement list:\n" + "\n".join(tb), top, m.path)
+    # the registered overloads of each single-dispatch function, by the annotation of `value`
+    regs = {}
+    for n in m.tree.body:
+        if isinstance(n, ast.FunctionDef) and n.name == "_" and n.decorator_list:
+            d = ast.unparse(n.decorator_list[0])
+            if d.endswith(".register"):
+                ann = ast.unparse(n.args.posonlyargs[0].annotation) if n.args.posonlyargs else ast.unparse(n.args.args[0].annotation)
+                body = [ast.unparse(st) for st in n.body if not (isinstance(st, ast.Expr) and isinstance(st.value, ast.Constant))]
+                regs.setdefault(d[:-len(".register")], {})[ann] = (body, n)
+    ROUTE = {("bt", "return value"): "id", ("dt", "return value"): "id", ("ht", "return value"): "id",
+             "return bt.TimeDelta(value)": "bt_ctor", "return value._to_datetime_timedelta()": "to_dt", "return value._to_hightime_timedelta()": "to_ht",
+             "return dt.timedelta(value.days, value.seconds, value.microseconds)": "dt_fields", "return ht.timedelta(value.days, value.seconds, value.microseconds)": "ht_fields"}
+    LEG = {("bt", "dt", "bt_ctor"): "Model.Conv.btOfDt x", ("bt", "ht", "bt_ctor"): "Model.Conv.btOfHt x", ("dt", "bt", "to_dt"): "Model.Conv.dtOfBt x",
+           ("ht", "bt", "to_ht"): "Model.Conv.htOfBt x", ("dt", "ht", "dt_fields"): "Model.Conv.dtOfHt x", ("ht", "dt", "ht_fields"): "Model.Conv.htOfDt x"}
+    lines = []
+    for dest_py, func in table.items():
+        dest = FAM[dest_py]
+        r = regs.get(func, {})
+        if set(r) != set(FAM):
+            raise T.Untranslatable(f"{func}: registered for {sorted(r)}, expected the three timedelta families", where=m.path)
+        base = m.find_func(None, func)
+        bb = [ast.unparse(st) for st in base.body if not (isinstance(st, ast.Expr) and isinstance(st.value, ast.Constant))]
+        if bb != ["raise invalid_arg_type('value', 'timedelta', value)"]:
+            raise T.Untranslatable(f"{func}: the fallback is not the TypeError", base, m.path)
+        for src_py, (body, node) in r.items():
+            src = FAM[src_py]
+            if len(body) != 1:
+                raise T.Untranslatable(f"{func}({src_py}): {body}", node, m.path)
+            route = ROUTE.get(body[0]) if dest != src else ROUTE.get((dest, body[0]))
+            if route == "id" and dest == src:
+                term = "Except.ok x"
+            else:
+                term = LEG.get((dest, src, route))
+            if term is None:
+                raise T.Untranslatable(f"{func}({src_py}): unsupported conversion `{body[0]}`", node, m.path)
+            lines.append(f"  | .{dest}, .{src}, x => {term}")
+    m.out.append("/-- the three timedelta families -/")
+    m.out.append("inductive Fam3 where | bt | dt | ht\n  deriving DecidableEq, Repr")
+    m.out.append("")
+    m.out.append("/-- generated from `convert_timedelta`, `_CONVERT_TIMEDELTA_FOR_TYPE` and the registered overloads of the three `_convert_to_*_timedelta`: (destination, source, value) -/")
+    m.out.append("@[pygen] def convert_timedelta : Fam3 → Fam3 → Int → Except PyErr Int")
+    m.out += lines
+    m.out.append("")
+    return m
+
+
 MODULES = [
     # (output file, builder, dependencies by output name)
     ("TimeValueTuple", lambda repo, deps: gen_time_value_tuple(repo), []),
@@ -727,6 +792,7 @@ MODULES = [
     ("PortLine", lambda repo, deps: gen_port_line(repo, deps["Port"]), ["Port"]),
     ("GetTimestamps", lambda repo, deps: gen_get_timestamps(repo, deps["Regular"]), ["Regular"]),
     ("ScaledData", lambda repo, deps: gen_scaled_data(repo, deps["Scaling"]), ["Scaling"]),
+    ("Conversion", lambda repo, deps: gen_conversion(repo, deps["TimeDelta"]), ["TimeDelta"]),
 ]
 
 
